@@ -190,18 +190,21 @@ def compress(tree, mand_labels, zmode, rng):
     # two passes: the label list must be complete before saved-step numbers are known -> collect symbolic steps first
     sym = []
 
+    nsaved = [0]
+
     def emit(t):
         k = repr(t)
-        if k in saved:
+        if k in saved and not (zmode == 'dup' and t[1] and rng.random() < 0.5):
             sym.append(('ref', saved[k]))
             return
         for c in t[1]:
             emit(c)
         sym.append(('lab', t[0]))
         num(t[0])
-        if t[1] and counts[k] > 1 and (zmode == 'all' or (zmode == 'random' and rng.random() < 0.5)):
-            sym.append(('Z', None))
-            saved[k] = len(saved) + 1
+        if t[1] and counts[k] > 1 and (zmode in ('all', 'dup') or (zmode == 'random' and rng.random() < 0.5)):
+            sym.append(('Z', None))          # 'dup': the same expression may be marked a second time (a new slot)
+            nsaved[0] += 1
+            saved[k] = nsaved[0]
     emit(tree)
     out = []
     for k, x in sym:
